@@ -61,12 +61,16 @@ package data
 //@ at return assert a-field-is-rejected-only-for-a-wire-level-reason: err != nil ==> n < 0 || fieldNum == 4 || fieldNum == 7 || ((fieldNum == 1 || fieldNum == 3 || fieldNum == 5 || fieldNum == 6) && wireType != 0) || ((fieldNum == 2 || fieldNum == 8) && wireType != 2)
 //@ func data.consumeUnixTime
 //@ loop 0 decreases len(remaining)
+//@ forbids errors.New fmt.Errorf
+//@ at return assert a-field-is-rejected-only-for-a-wire-level-reason: err != nil ==> n < 0 || (fieldNum == 1 && wireType != 0) || (fieldNum == 2 && wireType != 5)
 //@ at call github.com/ipld/go-ipld-prime/fluent/qp.MapEntry#1 assert wire-number-1-is-Seconds: fieldNum == 1 && callee_k == "Seconds"
 //@ at call github.com/ipld/go-ipld-prime/fluent/qp.MapEntry#2 assert wire-number-2-is-FractionalNanoseconds: fieldNum == 2 && callee_k == "FractionalNanoseconds"
 //@ at call github.com/ipld/go-ipld-prime/fluent/qp.Int#1 assert seconds-is-the-varint-read: callee_i == int64(seconds)
 //@ at call github.com/ipld/go-ipld-prime/fluent/qp.Int#2 assert nanoseconds-is-the-fixed32-read: callee_i == int64(fractionalNanoseconds) && 0 <= callee_i && callee_i <= 4294967295
 //@ func data.consumeUnixFSMetadata
 //@ loop 0 decreases len(remaining)
+//@ forbids errors.New fmt.Errorf
+//@ at return assert a-field-is-rejected-only-for-a-wire-level-reason: err != nil ==> n < 0 || (fieldNum == 1 && wireType != 2)
 //@ at call github.com/ipld/go-ipld-prime/fluent/qp.MapEntry#1 assert wire-number-1-is-MimeType: fieldNum == 1 && callee_k == "MimeType"
 //@ func data.consumeBlockSizes
 //@ at return assert a-packed-size-is-rejected-only-when-its-varint-is-malformed: err != nil ==> n < 0
